@@ -3,6 +3,8 @@ package props
 import (
 	"encoding/json"
 	"fmt"
+	"os"
+	"reflect"
 	"strings"
 
 	"github.com/tormoder/fit"
@@ -140,6 +142,7 @@ type c16Replay struct {
 	Cut     int    `json:"cut"`
 	Options string `json:"options"`
 	Hex     string `json:"stream_hex"`
+	Generic bool   `json:"generic,omitempty"`
 }
 
 func init() {
@@ -152,6 +155,12 @@ func init() {
 		Replay: func(raw json.RawMessage) (string, error) {
 			var r c16Replay
 			json.Unmarshal(raw, &r)
+			if r.Generic {
+				if msg, _ := c16Generic(vx.UnHex(r.Hex)); msg != "" {
+					return "", fmt.Errorf("%s: %s", r.Names, msg)
+				}
+				return "ok", nil
+			}
 			msg, _ := c16Check(r.Word, r.Cut, nil)
 			if msg != "" {
 				return "", fmt.Errorf("%s", msg)
@@ -357,6 +366,7 @@ func c16Check(word []int, cut int, onState func(h uint64)) (string, string) {
 }
 
 func runC16(w *vx.W) {
+	c16GenericFamilies(w)
 	maxLen := 3
 	if !w.Quick() {
 		maxLen = 4
@@ -400,5 +410,156 @@ func runC16(w *vx.W) {
 	}
 	if w.Shard == 0 {
 		w.Sample(map[string]interface{}{"word": "KU1 UA UNDEF", "cuts": "every offset", "options": "all 8 combinations"})
+	}
+}
+
+// refCounts: the unknown-item counters a well-formed stream must produce, derived from the independent parser:
+// one count per data record of an unknown message, one per (known message, unlisted field number) and data record.
+func refCounts(stream []byte) (map[int]int, map[uint32]int, error) {
+	p, _, err := fitmodel.ParseOne(stream)
+	if err != nil {
+		return nil, nil, err
+	}
+	pr := prof()
+	M, F := map[int]int{}, map[uint32]int{}
+	for _, r := range p.Recs {
+		g := r.Def.Global
+		if !pr.isKnown[g] {
+			M[int(g)]++
+			continue
+		}
+		seen := map[byte]bool{}
+		for _, fd := range r.Def.Fields {
+			if g == 20 && fd.Num == 8 {
+				// compressed_speed_distance feeds the package-level distance accumulator: repeated decodes in one
+				// process differ whatever the options are (listed finding of C08/C18), so such files say nothing here
+				return nil, nil, errOutsideModel
+			}
+			if _, ok := pr.fields[g][fd.Num]; !ok && fd.Num != 253 {
+				if seen[fd.Num] {
+					return nil, nil, errOutsideModel // the same unlisted number twice in one definition
+				}
+				seen[fd.Num] = true
+				F[uint32(g)<<8|uint32(fd.Num)]++
+			}
+		}
+	}
+	return M, F, nil
+}
+
+// c16Generic: any well-formed stream through all 8 option sets; content equal to the option-free run and to the
+// reference decoder, counters equal to refCounts.
+func c16Generic(stream []byte) (string, string) {
+	M, F, err := refCounts(stream)
+	if err != nil {
+		return "", ""
+	}
+	if msg := mixCheck(stream); msg != "" {
+		return "option-free decode disagrees with the reference decoder: " + msg, "base"
+	}
+	base := c16Decode(stream, 0)
+	if base.errText != "" || !base.hasFile {
+		return "", "" // rejected by both (mixCheck agreed)
+	}
+	if base.uf != nil || base.um != nil {
+		return "unknown-item lists are populated although no option was given", "lists-without-option"
+	}
+	for opt := 1; opt < 8; opt++ {
+		o := c16Decode(stream, opt)
+		on := optName(opt)
+		if o.panicked != "" {
+			return fmt.Sprintf("options %s: Decode panics: %s", on, o.panicked), "panic"
+		}
+		if o.content != base.content || o.hasFile != base.hasFile {
+			return fmt.Sprintf("options %s change the decoded content: %s vs %s", on, trunc(o.content, 200), trunc(base.content, 200)), "options-change-content"
+		}
+		if o.errText != base.errText {
+			return fmt.Sprintf("options %s change the error: %q vs %q", on, o.errText, base.errText), "options-change-error"
+		}
+		if o.consumed != base.consumed {
+			return fmt.Sprintf("options %s change the bytes consumed: %d vs %d", on, o.consumed, base.consumed), "options-change-consumed"
+		}
+		if (opt&2 == 0 && o.uf != nil) || (opt&4 == 0 && o.um != nil) {
+			return fmt.Sprintf("options %s: a list is populated without its option", on), "lists-without-option"
+		}
+		if opt&4 != 0 {
+			got := map[int]int{}
+			for i, u := range o.um {
+				if i > 0 && !(o.um[i-1].MesgNum < u.MesgNum) {
+					return fmt.Sprintf("options %s: UnknownMessages not strictly sorted: %v", on, o.um), "unsorted"
+				}
+				got[int(u.MesgNum)] = u.Count
+			}
+			if o.um == nil || !reflect.DeepEqual(got, M) {
+				return fmt.Sprintf("options %s: UnknownMessages %v, model %v", on, got, M), "unknown-message-count"
+			}
+		}
+		if opt&2 != 0 {
+			got := map[uint32]int{}
+			for i, u := range o.uf {
+				if i > 0 {
+					p := o.uf[i-1]
+					if !(p.MesgNum < u.MesgNum || (p.MesgNum == u.MesgNum && p.FieldNum < u.FieldNum)) {
+						return fmt.Sprintf("options %s: UnknownFields not strictly sorted: %v", on, o.uf), "unsorted"
+					}
+				}
+				got[uint32(u.MesgNum)<<8|uint32(u.FieldNum)] = u.Count
+			}
+			if o.uf == nil || !reflect.DeepEqual(got, F) {
+				return fmt.Sprintf("options %s: UnknownFields %v, model %v", on, got, F), "unknown-field-count"
+			}
+		}
+	}
+	return "", ""
+}
+
+// c16GenericFamilies: the mix words, the shared streams and the device-file corpus.
+func c16GenericFamilies(w *vx.W) {
+	report := func(name string, stream []byte, msg, class string) {
+		w.Violation("generic/"+class, name+": "+msg, c16Replay{Names: name, Hex: vx.Hex(stream), Generic: true})
+	}
+	alpha := mixAlphabet()
+	maxLen := 2
+	if !w.Quick() {
+		maxLen = 3
+	}
+	ops := make([]mixOp, 0, 8)
+	seqWords(len(alpha), maxLen, w.Mine, func(word []int) bool {
+		ops = ops[:0]
+		for _, a := range word {
+			ops = append(ops, alpha[a])
+		}
+		stream, full, ok := mixStream(ops, true)
+		if !ok {
+			return true
+		}
+		w.Eval(8)
+		w.Trace(8)
+		w.Fam("mix-words-all-options", 1)
+		w.Distinct(vx.HashB(stream))
+		if msg, class := c16Generic(stream); msg != "" {
+			report("mix word ["+mixWordString(full)+"]", stream, msg, class)
+		}
+		return true
+	})
+	var items []namedStream
+	for _, s := range []namedStream{sMin12, sAct3, sAct3BE, sSet, sBig, sDev, sMonState, sZero, s4096} {
+		items = append(items, s)
+	}
+	for _, p := range corpusFiles() {
+		if b, err := os.ReadFile(p); err == nil && (!w.Quick() || len(b) <= 400000) {
+			items = append(items, namedStream{Name: p, B: b})
+		}
+	}
+	for i, it := range items {
+		if !w.Mine(int64(i)) {
+			continue
+		}
+		w.Eval(8)
+		w.Trace(8)
+		w.Fam("files-all-options", 1)
+		if msg, class := c16Generic(it.B); msg != "" {
+			report(it.Name, it.B, msg, class)
+		}
 	}
 }
